@@ -10,7 +10,7 @@ from vf.xmodel import Schema, Rop, build_api, build_loader
 
 SHARDS = {'quick': 16, 'thorough': 32}
 TIMEOUT = {'quick': 900, 'thorough': 5400}
-MUST_HIT = ['Schema.attributes-given-as-one-shot-iterable', 'Ambient.IdFresh.ambient', 'Ambient.Suite.tests-passed', 'IdFresh.long-run-ids', 'IdFresh.instance-attribute', 'Generator.user-source-sequence', 'Generator.swapped', 'ArgModel.creation', 'IdFresh.defaulted-id', 'IdFresh.generator-next', 'Generator.peek',
+MUST_HIT = ['IdFresh.second-generator-of-the-same-kind-in-use', 'Schema.attributes-given-as-one-shot-iterable', 'Ambient.IdFresh.ambient', 'Ambient.Suite.tests-passed', 'IdFresh.long-run-ids', 'IdFresh.instance-attribute', 'Generator.user-source-sequence', 'Generator.swapped', 'ArgModel.creation', 'IdFresh.defaulted-id', 'IdFresh.generator-next', 'Generator.peek',
             'Generator.integer-sequence', 'UnknownType.rejected', 'Referential.argument',
             'Schema.association-formalized-after-creations', 'Schema.iterations-between-definition-and-formalization', 'Schema.attribute-replaced',
             'Schema.attribute-added', 'Schema.attribute-removed', 'Generator.drawn-by-for-break',
@@ -384,11 +384,17 @@ def long_run(ctx, rng):
     import xtuml
     n = rng.choice((700, 1500, 3000)) if ctx.tier == 'quick' else rng.choice((3000, 20000, 70000))
     for gkind in ('uuid', 'default', 'integer'):
-        gen = {'uuid': xtuml.UUIDGenerator, 'integer': xtuml.IntegerGenerator, 'default': lambda: None}[gkind]()
-        m = xtuml.MetaModel(gen) if gen is not None else xtuml.MetaModel()
-        m.define_class('K', [('Id', 'unique_id'), ('N', 'integer'), ('Other', 'UNIQUE_ID')])
-        seen = set()
+        # two metamodels with a generator of the same kind each, used in turn: each has its own sequence
+        models = []
+        for _ in range(2):
+            gen = {'uuid': xtuml.UUIDGenerator, 'integer': xtuml.IntegerGenerator, 'default': lambda: None}[gkind]()
+            m = xtuml.MetaModel(gen) if gen is not None else xtuml.MetaModel()
+            m.define_class('K', [('Id', 'unique_id'), ('N', 'integer'), ('Other', 'UNIQUE_ID')])
+            models.append((m, set()))
         for i in range(n):
+            m, seen = models[0] if rng.random() < 0.8 else models[1]
+            if m is models[1][0]:
+                ctx.hit('IdFresh.second-generator-of-the-same-kind-in-use')
             how = rng.random()
             if how < 0.7:
                 inst = m.new('K')
@@ -412,7 +418,7 @@ def long_run(ctx, rng):
                 if gkind == 'integer' and v != len(seen):
                     raise Mismatch('generator/integer-sequence', 'value number %d of the integer generator is %r'
                                    % (len(seen), v))
-        ctx.hit('IdFresh.long-run-ids', len(seen))
+        ctx.hit('IdFresh.long-run-ids', len(models[0][1]) + len(models[1][1]))
         ctx.case(('long', gkind, n, ctx.shard), True)
 
 
